@@ -15,6 +15,14 @@ sys.path.insert(0, os.path.dirname(os.path.abspath(__file__)))
 from seeded import Scratch, SEEDED, VERIF, sh  # noqa
 
 M = [
+ ("c19-scale-two-step", "C19", "src/ecdsa/ellipticcurve.py",
+  "        x = x * zz_inv % p\n        y = y * zz_inv * z_inv % p\n        self.__coords = (x, y, 1)\n",
+  "        x = x * zz_inv % p\n        self.__coords = (x, y, z)\n        y = y * zz_inv * z_inv % p\n        self.__coords = (x, y, 1)\n",
+  "scale() publishes the new x before the new y and z (only an operation cut short between the two stores shows it)"),
+ ("c07-table-published-early", "C07", "src/ecdsa/ellipticcurve.py",
+  "        precompute.append((doubler.x(), doubler.y()))\n\n        while i < order:\n",
+  "        precompute.append((doubler.x(), doubler.y()))\n        self.__precompute = precompute\n\n        while i < order:\n",
+  "the lazily built table is published after its first entry (a first use cut short leaves a truncated table)"),
  ("c01-canonize-reflects-r", "C01", "src/ecdsa/util.py",
   "def sigencode_strings_canonize(r, s, order):\n    if s > order // 2:\n        s = order - s\n",
   "def sigencode_strings_canonize(r, s, order):\n    if s > order // 2:\n        r = order - r\n",
